@@ -145,3 +145,53 @@ def explore(hfactory, workers=None, seed=0, time_budget=None, chunk_paths=400, o
             pool.terminate()
     total["wall"] = time.time() - t0
     return dict(total), exhaustive and not err_out, err_out
+
+
+# ---------------------------------------------------------------------------------------------------
+# many small explorations (one per skeleton): each worker keeps one harness "family" object alive and runs
+# whole explorations in-process
+
+_FAM = None
+
+
+def _many_init(famfactory):
+    global _FAM
+    _FAM = famfactory()
+
+
+def _many_task(args):
+    idx, task, max_paths = args
+    try:
+        h = _FAM.harness(task)
+        ex = _FAM.exec_for(h)
+        recs, left, stats = _explore_subtree(h, ex, [[]], max_paths, time.time() + 10 ** 8)
+        stats["solver_time_ms"] += int(ex.glob.solver_time * 1000)
+        ex.glob.solver_time = 0.0
+        return idx, recs, len(left), dict(stats), None
+    except Exception as e:
+        return idx, [], 0, {}, "worker error: " + repr(e) + "\n" + traceback.format_exc()
+
+
+def explore_many(famfactory, tasks, workers=None, max_paths=200000, on_result=None, log=None):
+    """tasks: list of picklable task descriptions.  on_result(idx, task, recs, leftover, stats, err)"""
+    workers = workers or min(16, os.cpu_count() or 1)
+    ctx = mp.get_context("fork")
+    total = collections.Counter()
+    t0 = time.time()
+    errs = []
+    with ctx.Pool(workers, initializer=_many_init, initargs=(famfactory,)) as pool:
+        it = pool.imap_unordered(_many_task, [(i, t, max_paths) for i, t in enumerate(tasks)], chunksize=1)
+        done = 0
+        last = time.time()
+        for idx, recs, left, stats, err in it:
+            done += 1
+            total.update(stats)
+            if err:
+                errs.append(err)
+            if on_result:
+                on_result(idx, tasks[idx], recs, left, stats, err)
+            if log and time.time() - last > 20:
+                last = time.time()
+                log(f"  ... {done}/{len(tasks)} explorations, {total['paths']} paths, {time.time() - t0:.0f}s")
+    total["wall"] = time.time() - t0
+    return dict(total), errs
